@@ -18,6 +18,10 @@ const (
 	DefaultNominationAttribute stun.AttrType = 0xC001 // matching libwebrtc.
 )
 
+// nominationSize is the size of the Nomination attribute value: one zero byte
+// followed by the 24-bit nomination value.
+const nominationSize = 4
+
 // NominationAttribute represents a STUN Nomination attribute.
 type NominationAttribute struct {
 	Value uint32
@@ -34,7 +38,7 @@ func (a *NominationAttribute) GetFromWithType(m *stun.Message, attrType stun.Att
 	if err != nil {
 		return err
 	}
-	if len(v) < 4 {
+	if len(v) != nominationSize {
 		return stun.ErrAttributeSizeInvalid
 	}
 
@@ -52,7 +56,7 @@ func (a NominationAttribute) AddTo(m *stun.Message) error {
 // AddToWithType adds a Nomination attribute to a STUN message using a specific attribute type.
 func (a NominationAttribute) AddToWithType(m *stun.Message, attrType stun.AttrType) error {
 	// Store as 4 bytes with first byte as 0
-	v := make([]byte, 4)
+	v := make([]byte, nominationSize)
 	v[1] = byte(a.Value >> 16) //nolint:gosec
 	v[2] = byte(a.Value >> 8)  //nolint:gosec
 	v[3] = byte(a.Value)       //nolint:gosec
